@@ -811,4 +811,110 @@ def mon_C04(run):
     return bad[:1]
 
 
-MONITORS = {"C04": mon_C04, "C07": mon_C07, "C06": mon_C06, "C09": mon_C09, "C03": mon_C03, "C10": mon_C10, "C01": mon_C01, "C02": mon_C02, "C11": mon_C11}
+def mon_C13(run):
+    """metrics vs. the harness's own per-object hand-out bookkeeping"""
+    bad = []
+    handouts = {}      # id -> number of hand-outs so far
+    last = {}          # id -> metrics string at the last hand-out
+    for row in run.rows:
+        if row is None:
+            continue
+        k = row["k"]
+        for e in row["ev"]:
+            name, args = ev_args(e)
+            if name == "handout":
+                oid, rc, created, rec = args[1].split(":")
+                n = handouts.get(oid, 0)
+                if int(rc) != n:
+                    bad.append((k, f"object {oid} handed out for the {n + 1}. time with recycle_count {rc}"))
+                if (rec == "-") != (n == 0):
+                    bad.append((k, f"object {oid}: hand-out #{n + 1} reports recycled={rec}"))
+                if oid in last:
+                    _, _, c0, r0 = last[oid].split(":")
+                    if created != c0:
+                        bad.append((k, f"object {oid}: created instant changed {c0} -> {created}"))
+                    if r0 != "-" and int(rec) < int(r0):
+                        bad.append((k, f"object {oid}: recycled instant moved backwards {r0} -> {rec}"))
+                if rec != "-" and (int(rec) < int(created) or int(rec) != k):
+                    bad.append((k, f"object {oid}: recycled instant {rec} is not the instant of this hand-out (step {k}, created {created})"))
+                handouts[oid] = n + 1
+                last[oid] = args[1]
+            elif name in ("pre_recycle", "recycle", "post_recycle", "pred"):
+                obj = args[2]
+                oid = obj.split(":")[0]
+                if last.get(oid) != obj:
+                    bad.append((k, f"{name} saw metrics {obj}, the object's last hand-out reported {last.get(oid)}"))
+            elif name == "post_create":
+                f = args[2].split(":")
+                if f[1] != "0" or f[3] != "-":
+                    bad.append((k, f"post_create hook saw used metrics {args[2]}"))
+        for x in (row["idle"] or []):
+            oid = x.split(":")[0]
+            if last.get(oid) != x:
+                bad.append((k, f"idle object carries metrics {x}, its last hand-out reported {last.get(oid)}"))
+        if bad:
+            return bad[:1]
+    return bad[:1]
+
+
+def mon_C08(run):
+    """reference queue kept from the return log; lazy creation; every callback runs inside
+    the operation that caused it"""
+    bad = []
+    lifo = run.cfg.get("mode") == "lifo"
+    q = []
+    prev_lbl = {}
+    attempt_started = {}
+    for row in run.rows:
+        if row is None:
+            continue
+        k, i, d = row["k"], row["op"], row["obs"]
+        op = run.ops[i]
+        lbl = d["lbl"]
+        pl = prev_lbl.get(i)
+        stepped = row["action"].startswith("step")
+        # a return that has pushed its object back
+        if op["kind"] == "ret" and stepped and pl == "ret.lock" and lbl == "ret.add_permits":
+            q.append(op["obj"])
+        for e in row["ev"]:
+            name, args = ev_args(e)
+            if name in ("status", "oppanic"):
+                continue
+            if int(args[0]) != i:
+                bad.append((k, f"{e} was emitted while operation #{i} was running: user code ran outside the operation that caused it"))
+            if name == "create" and q:
+                bad.append((k, f"Manager::create called although {q} are idle"))
+        if op["kind"] == "get" and stepped and pl == "get.pop":
+            # what did the get take out of the queue?
+            firsts = [ev_args(e) for e in row["ev"] if e.split("(")[0] in ("pre_recycle", "recycle")]
+            took = firsts[0][1][2].split(":")[0] if firsts else None
+            if took is None and lbl in ("unready.lock",) and row["idle"] is not None:
+                # recycle rejected without a callback cannot happen any more; treat as unknown
+                took = None
+            if took is not None:
+                want = q[-1] if lifo else q[0]
+                if not q or took != want:
+                    bad.append((k, f"{'Lifo' if lifo else 'Fifo'} get #{i} tried object {took}; the reference queue (oldest first) is {q}"))
+                if took in q:
+                    q.remove(took)
+            elif q and lbl == "create":
+                bad.append((k, f"get #{i} went to create although {q} are idle"))
+        for e in row["ev"]:
+            name, args = ev_args(e)
+            if name == "retained":
+                removed = [x for x in e[e.index("[") + 1:e.rindex("]")].split(",") if x]
+                q = [x for x in q if x not in removed]
+            if name == "detach" and op["kind"] in ("resize", "close"):
+                if not q or q[0] != args[1]:
+                    bad.append((k, f"shrink released object {args[1]}; the front of the reference queue {q} was expected"))
+                if args[1] in q:
+                    q.remove(args[1])
+        if row["idle"] is not None and [x.split(":")[0] for x in row["idle"]] != q:
+            bad.append((k, f"idle queue {row['idle']} differs from the reference queue {q}"))
+        prev_lbl[i] = lbl
+        if bad:
+            return bad[:1]
+    return bad[:1]
+
+
+MONITORS = {"C08": mon_C08, "C13": mon_C13, "C04": mon_C04, "C07": mon_C07, "C06": mon_C06, "C09": mon_C09, "C03": mon_C03, "C10": mon_C10, "C01": mon_C01, "C02": mon_C02, "C11": mon_C11}
